@@ -25,9 +25,59 @@ fn roundtrip(rng: &mut Rng, out: &mut Outcome) -> Result<(), String> {
     let mode = *rng.pick(&[UNIFORM, CONSTANT, SAMEBIN, MIXED]);
     set_default_mode(mode);
     let n = if rng.chance(1, 5) { 0 } else { rng.range(1, 300) };
-    let kind = rng.below(4);
-    out.add(["roundtrip_string_map", "roundtrip_int_map", "roundtrip_string_set", "roundtrip_int_set"][kind as usize], 1);
+    let kind = rng.below(5);
+    out.add(["roundtrip_string_map", "roundtrip_int_map", "roundtrip_string_set", "roundtrip_int_set", "roundtrip_through_value"][kind as usize], 1);
     match kind {
+        4 => {
+            // through serde_json::Value: a deserializer that, unlike the text front end, reports
+            // exact lengths (size hints); element types include zero-sized ones
+            let g_err = |e: serde_json::Error, what: &str| format!("{what} failed: {e}");
+            let m: SMap = HashMap::with_hasher(HB::new(mode));
+            let st: USet = HashSet::with_hasher(HB::new(mode));
+            let zs: HashSet<(), HB> = HashSet::with_hasher(HB::new(mode));
+            let za: HashSet<[u8; 0], HB> = HashSet::with_hasher(HB::new(mode));
+            let zv: HashMap<String, (), HB> = HashMap::with_hasher(HB::new(mode));
+            let mut model = BTreeMap::new();
+            let mut smodel = BTreeSet::new();
+            {
+                let (g1, g2, g3, g4, g5) = (m.guard(), st.guard(), zs.guard(), za.guard(), zv.guard());
+                for _ in 0..n {
+                    let k = format!("k{}", rng.below(400));
+                    let v = rng.next() >> 12;
+                    m.insert(k.clone(), v, &g1);
+                    zv.insert(k.clone(), (), &g5);
+                    model.insert(k, v);
+                    let e = rng.below(500);
+                    st.insert(e, &g2);
+                    smodel.insert(e);
+                }
+                if n % 2 == 1 {
+                    zs.insert((), &g3);
+                    za.insert([], &g4);
+                }
+            }
+            let back: SMap = serde_json::from_value(serde_json::to_value(&m).map_err(|e| g_err(e, "to_value(map)"))?).map_err(|e| g_err(e, "from_value(map)"))?;
+            if !(back == m) || contents_s(&back) != model {
+                return Err(format!("Value round trip of a {}-entry string map is not equal to the original", model.len()));
+            }
+            let back: USet = serde_json::from_value(serde_json::to_value(&st).map_err(|e| g_err(e, "to_value(set)"))?).map_err(|e| g_err(e, "from_value(set)"))?;
+            let got: BTreeSet<u64> = back.iter(&back.guard()).copied().collect();
+            if !(back == st) || got != smodel {
+                return Err(format!("Value round trip of a {}-entry integer set is not equal to the original", smodel.len()));
+            }
+            let back: HashSet<(), HB> = serde_json::from_value(serde_json::to_value(&zs).map_err(|e| g_err(e, "to_value(set of ())"))?).map_err(|e| g_err(e, "from_value(set of ())"))?;
+            if back.len() != zs.len() {
+                return Err(format!("Value round trip of a set of () has {} entries, the original {}", back.len(), zs.len()));
+            }
+            let back: HashSet<[u8; 0], HB> = serde_json::from_value(serde_json::to_value(&za).map_err(|e| g_err(e, "to_value(set of [u8; 0])"))?).map_err(|e| g_err(e, "from_value(set of [u8; 0])"))?;
+            if back.len() != za.len() {
+                return Err(format!("Value round trip of a set of [u8; 0] has {} entries, the original {}", back.len(), za.len()));
+            }
+            let back: HashMap<String, (), HB> = serde_json::from_value(serde_json::to_value(&zv).map_err(|e| g_err(e, "to_value(map to ())"))?).map_err(|e| g_err(e, "from_value(map to ())"))?;
+            if back.len() != zv.len() || !(back == zv) {
+                return Err(format!("Value round trip of a map to () has {} entries, the original {}", back.len(), zv.len()));
+            }
+        }
         0 => {
             let m: SMap = HashMap::with_hasher(HB::new(mode));
             let mut model = BTreeMap::new();
@@ -340,7 +390,10 @@ pub fn run(ctx: &Ctx) -> Outcome {
         let before = rng.clone().next();
         QUIET_PANICS.with(|q| q.set(true));
         let r = match which {
-            0 => roundtrip(&mut rng, &mut out).map_err(|e| ("roundtrip", e)),
+            0 => match guarded(std::panic::AssertUnwindSafe(|| roundtrip(&mut rng, &mut out))) {
+                Ok(r) => r.map_err(|e| ("roundtrip", e)),
+                Err(p) => Err(("roundtrip", format!("serialising or deserialising a well-formed value panicked: {p}"))),
+            },
             1 | 2 => generated_input(&mut rng, &mut out).map_err(|e| ("deserialize", e)),
             _ => rayon_case(&mut rng, &mut out).map_err(|e| ("rayon", e)),
         };
